@@ -8,7 +8,7 @@
    track_sample_ranges, display and catalog_number are total functions of the model (their
    Rust arithmetic is saturating after fix F-C12f; the remaining `try_into().unwrap()` in
    Timestamp::from act on values below 60 and 75). *)
-From FlacMeta Require Import Bytes Blocks BlockList Cue Accessors Sniff Blocks_proofs BlockList_proofs Total_proofs.
+From FlacMeta Require Import Bytes Blocks BlockList Cue Accessors Sniff Blocks_proofs Blocks_level BlockList_proofs Total_proofs.
 Open Scope N_scope.
 
 Theorem C12_read_metadata_total : forall (utf8_valid : list N -> bool) (p : profile) (bytes : list N) k,
@@ -37,10 +37,10 @@ Proof. exact sniff_never_panics. Qed.
 (* size of the built value: a block that parsed re-encodes to exactly as many bytes as the
    reader consumed for it (so nothing larger than the input is ever built) *)
 Theorem C12_block_size_bounded : forall (utf8_valid : list N -> bool) s last b rest,
-  Forall byte s -> read_block utf8_valid s = Ok (last, b, rest) -> covered b ->
+  Forall byte s -> read_block utf8_valid s = Ok (last, b, rest) ->
   exists bs', write_block last b = Ok bs' /\ lenN bs' + lenN rest = lenN s.
 Proof.
-  intros u s last b rest Hs H Cv. destruct (read_block_inv u s last b rest Hs H Cv) as (_ & _ & _ & _ & E). exact E.
+  intros u s last b rest Hs H. destruct (read_block_inv u s last b rest Hs H) as (_ & _ & _ & _ & E). exact E.
 Qed.
 
 (* non-vacuity: inputs on which the unrepaired code panicked are handled *)
